@@ -31,6 +31,14 @@ func runtimeConfig(engine string) wazero.RuntimeConfig {
 
 var bg = context.Background()
 
+type zeroReader struct{}
+
+func (zeroReader) Read(b []byte) (int, error) { clear(b); return len(b), nil }
+
+// modCfg: the default ModuleConfig seeds a math/rand source on every instantiation (22% of a word's cost);
+// the modules of this check import nothing from the host, so a constant source is equivalent.
+var modCfg = wazero.NewModuleConfig().WithRandSource(zeroReader{})
+
 // canonErr maps an error of a guest call to a canonical class. Error texts are excluded from the
 // comparison (DESIGN 1.6); trap kinds are identified by wazero's sentinel errors.
 func canonErr(err error) string {
